@@ -1,51 +1,58 @@
-"""Numpy model of the Expokit-style error estimate used by `krylov_exp_impl`, used only to *classify* an
-accuracy violation (never to decide one): was convergence declared early because the estimate multiplies by
-|A v_j| (norm of the operator applied to the *current* Krylov vector) where Expokit uses |A v_{j+1}|?
+"""Numpy replica of the pinned `krylov_exp_impl` algorithm (same recurrence, same Expokit-style estimate, same
+stopping rule, same result assembly).  It is used only to *classify* an accuracy violation, never to decide one:
+
+    a converged result whose true error exceeds 10*tol is attributed to the known finding "the a-posteriori error
+    estimate is optimistic" iff the replica (i) stops at the same iteration and (ii) produces the same vector.
+
+An implementation change to the stopping rule, the estimate or the result assembly makes the real routine deviate
+from the replica, so its violations are NOT attributed to the known finding.
 """
 import numpy as np
 import scipy.linalg as sla
 
 
-def estimates(A, v, kmax):
-    """Arnoldi on dense A from v. Returns per iteration j: (err_as_coded, err_with_proper_avnorm, breakdown)."""
-    D = A.shape[0]
+def replica(A, v, is_hermitian, exp_tol, norm_tol, kmax):
+    """returns (result, converged, happy_breakdown, iterations)"""
     v = np.asarray(v, dtype=complex).reshape(-1)
-    V = [v / np.linalg.norm(v)]
+    n0 = np.linalg.norm(v)
+    V = [v / n0]
     T = np.zeros((kmax + 2, kmax + 2), dtype=complex)
-    out = []
-    for j in range(min(kmax, D + 1)):
+    expd = None
+    for j in range(kmax):
         w = A @ V[-1]
         n = np.linalg.norm(w)
-        for k in range(j + 1):
+        k_start = max(0, j - 1) if is_hermitian else 0
+        for k in range(k_start, j + 1):
             ov = np.vdot(V[k], w)
             T[k, j] = ov
             w = w - ov * V[k]
         n2 = np.linalg.norm(w)
         T[j + 1, j] = n2
-        if n2 < 1e-14 * max(1.0, n):
-            out.append((0.0, 0.0, True))
-            break
+        if n2 < norm_tol:
+            expd = sla.expm(T[: j + 1, : j + 1])
+            res = n0 * sum(a * b for a, b in zip(expd[:, 0], V))
+            return res, True, True, j + 1
         V.append(w / n2)
         T[j + 2, j + 1] = 1
         expd = sla.expm(T[: j + 3, : j + 3])
-        T[j + 2, j + 1] = 0
         err1 = abs(expd[j + 1, 0])
-        n_next = np.linalg.norm(A @ V[-1])
+        err2 = abs(expd[j + 2, 0] * n)
+        err = err1 if err1 < err2 else (err1 * err2 / (err1 - err2))
+        if err < exp_tol:
+            res = n0 * sum(a * b for a, b in zip(expd[: len(V), 0], V))
+            return res, True, False, j + 1
+    res = n0 * sum(a * b for a, b in zip(expd[: len(V), 0], V))
+    return res, False, False, kmax
 
-        def comb(e1, e2):
-            return e1 if e1 < e2 else (e1 * e2 / (e1 - e2) if e1 != e2 else np.inf)
 
-        out.append((comb(err1, abs(expd[j + 2, 0] * n)), comb(err1, abs(expd[j + 2, 0] * n_next)), False))
-    return out
-
-
-def early_stop_is_avnorm_mechanism(A, v, iteration_count, tol):
-    """True iff at the reported iteration the coded estimate is below tol while the proper one is not."""
+def explained_by_pinned_algorithm(A, v, is_hermitian, exp_tol, norm_tol, kmax, got_result, got_iterations):
+    """True iff the real routine did exactly what the pinned algorithm prescribes (same stop, same vector)."""
     try:
-        est = estimates(A, v, iteration_count)
+        res, conv, happy, it = replica(np.asarray(A), v, is_hermitian, exp_tol, norm_tol, kmax)
     except Exception:
         return False
-    if len(est) < iteration_count:
+    if not conv or happy or it != got_iterations:
         return False
-    coded, proper, bd = est[iteration_count - 1]
-    return (not bd) and coded < tol * 1.5 and proper >= tol
+    nv = np.linalg.norm(np.asarray(v).reshape(-1))
+    # the replica's vector must coincide with the real one far below the deviation being explained (> 10*tol)
+    return bool(np.linalg.norm(res - np.asarray(got_result).reshape(-1)) <= (0.01 * exp_tol + 1e-13) * nv)
